@@ -230,6 +230,10 @@ theorem mgh_single_frame_4d_limit (a b c : Nat) :
   refine ⟨rfl, ?_⟩
   intro dt data aff ras setZ sets o
   have hs : getDataShape ⟨a, b, c, 1⟩ ≠ [a, b, c, 1] := by simp [getDataShape]
+  have tail : ∀ code (h1 : MghHdr), h1.dims = ⟨a, b, c, 1⟩ →
+      mghSaveLoadFrom [a, b, c, 1] code h1 data aff ras sets = .error .hdrData := by
+    intro code h1 hd
+    simp [mghSaveLoadFrom, setFtr_dims, hd, hs]
   unfold mghSaveLoad
   simp only [List.length_cons, List.length_nil, show ¬ ((0 + 1 + 1 + 1 + 1 : Nat) < 3) from by decide, if_false]
   cases codeOfDtype dt with
@@ -237,14 +241,14 @@ theorem mgh_single_frame_4d_limit (a b c : Nat) :
   | some code =>
     simp only [setDataShape]
     cases setZ with
-    | none => simp [setFtr_dims, hs]
+    | none => simp [tail]
     | some zs =>
       simp only []
       cases hz : setZooms ⟨⟨a, b, c, 1⟩, code, aff, [0, 0, 0, 0, 0]⟩ zs with
       | error e => simp
       | ok h1 =>
         have := (setZooms_dims _ _ _ hz).1
-        simp [setFtr_dims, this, hs]
+        simp [tail code h1 this]
 
 /-- **zooms and TR.**  Setting as many zooms as the header has dimensions (positive spatial zooms, a
     non-negative TR for 4-D) is accepted and `get_zooms` returns exactly them — three voxel sizes for a 3-D
@@ -292,7 +296,7 @@ theorem mgh_file_roundtrip (h : MghHdr) (ras : Bytes) (bpv : Nat) (data : List N
     (hfl : h.ftr.length = 5) (hfv : ∀ v ∈ h.ftr, v < 4294967296)
     (hras : ras.length = 48)
     (hdata : data.length = h.dims.prod) (hdat : ∀ v ∈ data, v < 256 ^ bpv) :
-    readMgh (writeMgh h ras bpv data) = .ok (h, data)
+    readMgh (writeMgh h ras bpv data) = .ok (h, ras, data)
     ∧ (writeMgh h ras bpv data).length = footerOffset bpv h.dims + ftrItemsize := by
   obtain ⟨⟨x, y, z, f⟩, code, delta, ftr⟩ := h
   simp only [Dims.toList, List.mem_cons, List.not_mem_nil, or_false, forall_eq_or_imp, forall_eq] at hdims
@@ -300,7 +304,7 @@ theorem mgh_file_roundtrip (h : MghHdr) (ras : Bytes) (bpv : Nat) (data : List N
     hdims.2.2.2 hcode hdl hdv hfl hfv hras hdata hdat
 
 example : readMgh (writeMgh ⟨⟨2, 1, 1, 2⟩, 4, [1065353216, 1073741824, 1056964608], [1075838976, 0, 1, 2, 3]⟩
-      (zeros 48) 2 [1, 65535, 32768, 7]) = .ok (⟨⟨2, 1, 1, 2⟩, 4, [1065353216, 1073741824, 1056964608], [1075838976, 0, 1, 2, 3]⟩, [1, 65535, 32768, 7])
+      (zeros 48) 2 [1, 65535, 32768, 7]) = .ok (⟨⟨2, 1, 1, 2⟩, 4, [1065353216, 1073741824, 1056964608], [1075838976, 0, 1, 2, 3]⟩, zeros 48, [1, 65535, 32768, 7])
     ∧ (writeMgh ⟨⟨2, 1, 1, 2⟩, 4, [1065353216, 1073741824, 1056964608], [1075838976, 0, 1, 2, 3]⟩
       (zeros 48) 2 [1, 65535, 32768, 7]).length = footerOffset 2 ⟨2, 1, 1, 2⟩ + ftrItemsize :=
   mgh_file_roundtrip _ _ _ _ (by decide) (by decide) (by decide) (by decide) (by decide) (by decide) (by decide)
